@@ -1,7 +1,7 @@
 """C01 — Incremental build result equals a from-scratch build (engine bookkeeping invariants)."""
 from rules import engine as E
 
-UNITS = ["lib/Core/BuildEngine.cpp"]
+UNITS = ["lib/Core/BuildEngine.cpp", "lib/Core/SQLiteBuildDB.cpp"]
 THOROUGH_ALL_UNITS = False
 EXPLANATION = ("Decides the epoch / dependency bookkeeping invariants every history relies on: the guards of the "
                "up-to-date verdict, the frozen table of epoch comparisons (strict staleness test with checked operand "
@@ -27,6 +27,8 @@ def run(ctx):
     E.r_state_order(prog, rep)
     E.r_parallel_vectors(prog, rep)
     E.r_scan_waits(prog, rep)
+    from rules import C03
+    C03.r_sql_columns(prog, rep)
     E.r_discovered_demanded(prog, rep)
 
 
